@@ -164,7 +164,11 @@ func genC10(r *Rand, tier string, ord int) *Trial {
 			}
 		}
 	}
-	t := &Trial{Kind: kind, Case: Case{Cmd: "updownlist", Files: map[string]string{"ref": ">ref\n" + ref + "\n", "query": q.FASTA(genLayout(r))}}, Params: map[string]string{}}
+	lay := genLayout(r)
+	if wide {
+		lay = wideLayout(r)
+	}
+	t := &Trial{Kind: kind, Case: Case{Cmd: "updownlist", Files: map[string]string{"ref": ">ref\n" + ref + "\n", "query": q.FASTA(lay)}}, Params: map[string]string{}}
 	t.Runs = genRunCfgs(r, 3)
 	if wide {
 		wideRuns(t.Runs)
